@@ -221,6 +221,8 @@ def feeds(b, body, x):
 
 def exempt(b, x):
     loc = b.locals[x]
+    if 1 <= x <= b.arg_count and (loc["ty"] or "").startswith("&mut "):
+        return "out-parameter (the caller reads it after the call)"
     if loc.get("rng"):
         return "random source"
     if any(bd.endswith("CryptographicSponge") or bd.endswith("RngCore") for bd in loc.get("bounds", ())):
